@@ -43,6 +43,19 @@ def run(rep, tier, seed):
                             "b": dy(rng, -4, 4, 4), "w": [dy(rng, 0, 4, 4) + Fr(1, 4) for _ in range(n)],
                             "x": [dy(rng, 0, 1, 8) for _ in range(n)]})
         cases.append({"clamp": clamp, "neurons": neurons})
+    # just outside and just inside the clamp edges, at every binary scale float32 can represent there (each point is exact in
+    # float32, so the clamp must be exact too); the model comparison stops at the first value finer than the float-safe
+    # grid, the oracle below judges every point
+    edge = [ONE + Fr(1, 2 ** k) for k in range(1, 24)] + [-Fr(1, 2 ** k) for k in range(1, 31)]
+    edge += [ONE - Fr(1, 2 ** k) for k in range(1, 25)] + [Fr(1, 2 ** k) for k in range(1, 31)]
+    eneurons = []
+    for k in range(10, 24):
+        for kind in ("or", "implies"):
+            eneurons.append({"kind": kind, "act": "lukt", "b": ONE, "w": [ONE, Fr(1, 2 ** k)], "x": [ZERO if kind == "implies" else ONE, ONE]})
+        eneurons.append({"kind": "and", "act": "lukt", "b": ONE + Fr(1, 2 ** k), "w": [ONE, ONE], "x": [ONE, ONE]})
+    for k in range(10, 25):
+        eneurons.append({"kind": "and", "act": "lukt", "b": ZERO, "w": [Fr(1, 8), ONE], "x": [ONE - Fr(1, 2 ** k), ONE]})
+    cases.append({"clamp": edge, "neurons": eneurons})
     recs = engine.run_cases("misc", "run_c19_batch", cases, chunksize=1)
     engine.model_outputs([r for r in recs if "lines" in r])
     ndis = ncmp = 0
